@@ -66,8 +66,11 @@ func (g *Generator) makeStr(typeName string) {
 				}
 				if vspec.Type != nil {
 					// "X T". We have a type. Remember it.
-					ident, ok := vspec.Type.(*ast.Ident)
+					// "X (T) = 1" is a T; any other type expression ("X pkg.T = 1") is some
+					// other type, and it is that type which an empty spec below repeats
+					ident, ok := ast.Unparen(vspec.Type).(*ast.Ident)
 					if !ok {
+						typ = ""
 						continue
 					}
 					typ = ident.Name
